@@ -35,6 +35,10 @@ enum Op {
     /// `set_style(pb.style().template(..))`: the bar's current style (which carries the bar's tab width)
     /// gets a new template and is installed again
     Restyle(usize),
+    /// `set_style(donor.style())`: the style of another bar, which carries that bar's tab width
+    Transplant(usize, usize),
+    /// `set_style(saved)`: the bar's own style as `style()` returned it right after construction
+    Reinstall,
     Msg(String),
     Prefix(String),
 }
@@ -198,8 +202,10 @@ fn run_case(seed: u64, idx: u64) -> CaseOut {
         let n = rng.range(1, 6);
         let mut ops = Vec::new();
         for _ in 0..n {
-            ops.push(match rng.below(5) {
+            ops.push(match rng.below(7) {
                 0 => Op::TabWidth(*rng.pick(&WIDTHS)),
+                5 => Op::Transplant(rng.usize(TEMPLATES.len()), *rng.pick(&WIDTHS)),
+                6 => Op::Reinstall,
                 1 => Op::Style(rng.usize(TEMPLATES.len())),
                 4 => Op::Restyle(rng.usize(TEMPLATES.len())),
                 2 => Op::Msg(text(&mut rng, "m")),
@@ -226,6 +232,7 @@ fn run_case(seed: u64, idx: u64) -> CaseOut {
             Ok(())
         };
         check(&pb, tmpl, &msg, &prefix, tw, &history, "construction")?;
+        let saved = (pb.style(), tmpl);
         for op in ops {
             let name = format!("{op:?}");
             match op {
@@ -240,6 +247,15 @@ fn run_case(seed: u64, idx: u64) -> CaseOut {
                 Op::Restyle(t) => {
                     tmpl = t;
                     pb.set_style(pb.style().template(TEMPLATES[t]).unwrap());
+                }
+                Op::Transplant(t, dw) => {
+                    tmpl = t;
+                    let donor = ProgressBar::hidden().with_tab_width(dw).with_style(style_for(t));
+                    pb.set_style(donor.style());
+                }
+                Op::Reinstall => {
+                    tmpl = saved.1;
+                    pb.set_style(saved.0.clone());
                 }
                 Op::Msg(m) => {
                     msg = m.clone();
